@@ -119,6 +119,7 @@ func checkC03(c *Ctx, r *Report) {
 	r.floor("R3.1", 21)
 	r.floor("R3.2", 2)
 	r.floor("R3.0", 1)
+	r.floor("R3.3", 4)
 	crc := c.fnMust("packet", "CRC16")
 	for _, m := range bytesMethods(c, "packet") {
 		er := runEncoder(c, "packet", m, crc)
@@ -147,11 +148,25 @@ func checkC03(c *Ctx, r *Report) {
 		c03Encoder(c, r, er, id)
 	}
 	c03Coverage(c, r, crc)
-	for _, name := range []string{"ParseRTURequestWithCRC", "ParseRTUResponseWithCRC"} {
-		fn := c.fnMust("packet", name)
+	// CRC-verifying entry points: every exported function of the package taking a frame that
+	// calls CRC16 itself
+	nver := 0
+	for _, fn := range parseEntryPoints(c, "packet") {
+		if fn == crc || !callsDirect(fn, crc) {
+			continue
+		}
+		nver++
 		r.instance("R3.2", 1)
 		r.funcs[fnID(fn)] = true
 		c03Verifier(c, r, fn, crc, false)
+	}
+	// R3.3: the RTU clients enforce the CRC because the functions their constructors install are
+	// CRC-verifying ones (the C12 R12.1/R12.2 analysis)
+	{
+		tmp := newReport(r.Prop, r.Tier)
+		checkC12(c, tmp)
+		n := copyItems(tmp, r, "R12.1", "R3.3", "RTU constructor") + copyItems(tmp, r, "R12.2", "R3.3")
+		r.instance("R3.3", n)
 	}
 	r.assumption("CRC16 is uninterpreted: any function of its argument bytes; its arithmetic is not examined")
 	r.assumption("requests are analysed under their constructor's success state; responses under the premise that their slice fields together are at most 250 bytes (a Modbus PDU)")
